@@ -12,6 +12,7 @@ From Coq Require Import List NArith ZArith Bool Lia.
 From Coq.Strings Require Import Byte.
 Require Import GV.Base.Res GV.Base.Byt GV.Base.Ints GV.Model.Prim.
 Require Import GV.Model.Reloc GV.Proofs.RelocProofs.
+(* (GV.Model.Attr, the C03 model, supplies allow_section_offset; it is not imported here to keep names apart) *)
 Import ListNotations.
 Local Open Scope N_scope.
 
@@ -211,6 +212,41 @@ Example plain_read_of_site_differs :
   out_plain (mkRd 0 (apply_rrels false ex_R ex_hdr))
             (run_plain_rd false true p (mkRd 0 (apply_rrels false ex_R ex_hdr))) = Ok (4148, 10, 5).
 Proof. vm_compute. repeat split; reflexivity. Qed.
+
+(* the legacy DWARF 2/3 rule of parse_attribute (src/read/unit.rs allow_section_offset): every attribute
+   whose classes include a section-offset class — DW_AT_data_member_location in version 3 included — is read
+   with the RELOCATABLE method when given as DW_FORM_data4 / DW_FORM_data8 of the unit's format, and
+   DW_FORM_sec_offset always is; so by parser_reloc a relocation on that field is transparent.
+   (`p_attr_word` is tied to gimli over the whole name x version x format x form grid by stream c18.secoff.) *)
+Theorem attr_legacy_secoff_relocatable : forall (name ver : N),
+  In name dwarf3_secoff_names -> ver = 2 \/ ver = 3 ->
+  p_attr_word false ver name 6 = POffset false (fun v => PRet [1; v]) /\
+  p_attr_word true ver name 7 = POffset true (fun v => PRet [1; v]).
+Proof. exact attr_legacy_secoff_relocatable_lemma. Qed.
+
+Theorem attr_sec_offset_relocatable : forall (fmt64 : bool) (name ver : N),
+  p_attr_word fmt64 ver name 23 = POffset fmt64 (fun v => PRet [1; v]).
+Proof. exact attr_sec_offset_relocatable_lemma. Qed.
+
+Theorem parser_reloc_attr_word :
+  forall (be dbg fmt64 : bool) (ver name form field : N) (R : list rrel) (bs : list byte) (base : N),
+  let p := PSkip field (p_attr_word fmt64 ver name form) in
+  sites_disjointb R = true ->
+  trace_okb R (fst (run_reloc_rd be dbg (map_relocator R) p (rrd_new (mkRd base bs)))) = true ->
+  out_reloc (snd (run_reloc_rd be dbg (map_relocator R) p (rrd_new (mkRd base bs)))) =
+  out_plain (mkRd base (apply_rrels be R bs))
+            (run_plain_rd be dbg p (mkRd base (apply_rrels be R bs))).
+Proof. exact parser_reloc_attr_word_lemma. Qed.
+
+(* DWARF 3, 32-bit: DW_AT_data_member_location (0x38) as DW_FORM_data4 at offset 12 with a relocation *)
+Example ex_attr_word_hyps :
+  let bs := [x0c; x00; x00; x00; x03; x00; x00; x00; x00; x00; x08; x01; x10; x00; x00; x00] in
+  let R := [mkRrel 12 4 true 8192] in
+  let p := PSkip 12 (p_attr_word false 3 56 6) in
+  In 56 dwarf3_secoff_names /\ sites_disjointb R = true /\
+  trace_okb R (fst (run_reloc_rd false true (map_relocator R) p (rrd_new (mkRd 0 bs)))) = true /\
+  out_reloc (snd (run_reloc_rd false true (map_relocator R) p (rrd_new (mkRd 0 bs)))) = Ok ([1; 8208], 16, 0).
+Proof. vm_compute. repeat split; auto 20. Qed.
 
 (* (4) RelocateReader with the identity Relocate behaves as the inner reader for every parser *)
 Theorem identity_reloc : forall (A : Type) (be dbg : bool) (p : prog A) (bs : list byte) (base : N),
